@@ -4,7 +4,7 @@ import HG.Lemmas.Spec
 
 Nothing here is a property theorem.  The file holds
 
-* the declarative vocabulary of the build-time specification (`Reach`, `Excl`, `Mutex`, `Ordered`,
+* the declarative vocabulary of the build-time specification (`Reach`, `Excl`, `InBranch`, `Mutex`, `Ordered`,
   `Produces`, `LegalName`, `TypedOK`, `WellFormed`, `Built`);
 * for every check of `HG.Build.checks` the lemma "`chk b = none ↔` its declarative clause";
 * correctness of the fuel-bounded reachability (`reaches_iff`: `|V|` rounds compute the
@@ -246,16 +246,61 @@ def Produces (b : BuildInput) (n o : Name) : Prop := ∃ nd ∈ b.nodes, nd.name
 def Excl (V : List Name) (adj : Name → Name → Bool) (T : List Name) (t v : Name) : Prop :=
   Reach V adj t v ∧ ∀ t' ∈ T, t' ≠ t → ¬ Reach V adj t' v
 
-/-- `a` and `c` lie in different exclusive branches of the gate `g` -/
-def MutexVia (V : List Name) (adj : Name → Name → Bool) (g : NodeD) (a c : Name) : Prop :=
+/-- no gate other than the one called `gate` lists `t` among its targets
+(`not (_controllers_of(t, node_map) - {gate})`) -/
+def SoleController (nodes : List NodeD) (gate t : Name) : Prop :=
+  ∀ g ∈ nodes, g.isGate = true → t ∈ g.targetNames → g.name = gate
+
+/-- `needs(m, B)` of `_dependent_on_branch`: the node called `m` cannot start unless `B` ran —
+(a) it has a parameter without a default of its own (`has_default_for`) that has producers, all of them in
+`B`; (b) it waits for a signal that has producers, all of them in `B`; (c) some gate routes to it, and
+every gate routing to it is in `B` -/
+def NeedsBranch (nodes : List NodeD) (B : Name → Prop) (m : Name) : Prop :=
+  (∃ nd ∈ nodes, nd.name = m ∧ ∃ p ∈ nd.inputs, p ∉ nd.hasDefault ∧ sourcesOf nodes p ≠ [] ∧
+      ∀ s ∈ sourcesOf nodes p, B s) ∨
+    (∃ nd ∈ nodes, nd.name = m ∧ ∃ w ∈ nd.waitFor, sourcesOf nodes w ≠ [] ∧ ∀ s ∈ sourcesOf nodes w, B s) ∨
+    (controllersOf nodes m ≠ [] ∧ ∀ c ∈ controllersOf nodes m, B c)
+
+/-- `m ∈ _compute_exclusive_reachability(G, T, gate=gate, …)[t]`: `m` runs ONLY when the gate called `gate`
+chose its target `t`.  The least set holding `t` — provided no OTHER gate routes to `t`, else the set is
+empty — and every candidate (`Excl`: reachable from `t` and from no other target in `T`) that needs the set
+(`NeedsBranch`; the three `via…` constructors are its three disjuncts, `InBranch.step` / `inBranch_iff`
+put them back together).  `sourcesOf nodes p` = `output_to_sources[p]` (`mem_sourcesOf`),
+`controllersOf nodes m` = `_controllers_of(m, node_map)` (`mem_controllersOf`). -/
+inductive InBranch (nodes : List NodeD) (V : List Name) (adj : Name → Name → Bool) (T : List Name)
+    (gate t : Name) : Name → Prop
+  | root : SoleController nodes gate t → InBranch nodes V adj T gate t t
+  | viaInput {m p : Name} {nd : NodeD} : Excl V adj T t m → nd ∈ nodes → nd.name = m → p ∈ nd.inputs →
+      p ∉ nd.hasDefault → sourcesOf nodes p ≠ [] →
+      (∀ s ∈ sourcesOf nodes p, InBranch nodes V adj T gate t s) → InBranch nodes V adj T gate t m
+  | viaSignal {m w : Name} {nd : NodeD} : Excl V adj T t m → nd ∈ nodes → nd.name = m → w ∈ nd.waitFor →
+      sourcesOf nodes w ≠ [] →
+      (∀ s ∈ sourcesOf nodes w, InBranch nodes V adj T gate t s) → InBranch nodes V adj T gate t m
+  | viaGate {m : Name} : Excl V adj T t m → controllersOf nodes m ≠ [] →
+      (∀ c ∈ controllersOf nodes m, InBranch nodes V adj T gate t c) → InBranch nodes V adj T gate t m
+
+/-- `a` and `c` lie in different branches of the gate `g` -/
+def MutexVia (nodes : List NodeD) (V : List Name) (adj : Name → Name → Bool) (g : NodeD) (a c : Name) : Prop :=
+  ∃ t1 ∈ knownTargets V g, ∃ t2 ∈ knownTargets V g, t1 ≠ t2 ∧
+    InBranch nodes V adj (knownTargets V g) g.name t1 a ∧ InBranch nodes V adj (knownTargets V g) g.name t2 c
+
+/-- `_is_pair_mutex`: some exclusive gate (route without `multi_target`, or if/else) has two distinct
+targets that are nodes, `a` in the branch of the one and `c` in the branch of the other (`InBranch`: the
+target itself when no other gate routes to it, and the nodes reachable in the built graph from that target
+only which cannot start without the branch) -/
+def Mutex (b : BuildInput) (a c : Name) : Prop :=
+  ∃ g ∈ b.nodes, exclusiveGate g = true ∧ MutexVia b.nodes (nodeNames b) (hasEdge (graphEdges b)) g a c
+
+/-- pre-repair `MutexVia`: a branch was every node reachable from one target only -/
+def MutexViaReach (V : List Name) (adj : Name → Name → Bool) (g : NodeD) (a c : Name) : Prop :=
   ∃ t1 ∈ knownTargets V g, ∃ t2 ∈ knownTargets V g, t1 ≠ t2 ∧
     Excl V adj (knownTargets V g) t1 a ∧ Excl V adj (knownTargets V g) t2 c
 
-/-- `_is_pair_mutex`: some exclusive gate (route without `multi_target`, or if/else) has two distinct
-targets that are nodes, `a` reachable in the built graph exclusively from the one and `c` exclusively
-from the other -/
-def Mutex (b : BuildInput) (a c : Name) : Prop :=
-  ∃ g ∈ b.nodes, exclusiveGate g = true ∧ MutexVia (nodeNames b) (hasEdge (graphEdges b)) g a c
+/-- `_is_pair_mutex` BEFORE the repair "two producers of one name are exclusive only if neither can run
+without its branch": `a` reachable in the built graph exclusively from one target of an exclusive gate and
+`c` exclusively from another -/
+def MutexReach (b : BuildInput) (a c : Name) : Prop :=
+  ∃ g ∈ b.nodes, exclusiveGate g = true ∧ MutexViaReach (nodeNames b) (hasEdge (graphEdges b)) g a c
 
 /-- `_is_pair_ordered` / the explicit-mode path test: a directed path between the two producers of
 `o`, in either direction, over `orderAdj b o` (explicit mode: the declared graph; auto-inference:
@@ -277,31 +322,360 @@ def EdgeOK (nodes : List NodeD) (e : Name × Name × Option (List Name)) : Prop 
 def TypedOK (b : BuildInput) (e : Edge) (v : Name) : Prop :=
   ∃ to ti, outType b e.src v = some to ∧ inType b e.dst v = some ti ∧ compat to ti = true
 
+/-- the same of a producer `src` and a consumer `dst` given by name (`TypedOK b e v` is
+`TypedTriple b e.src e.dst v`, by definition) -/
+def TypedTriple (b : BuildInput) (src dst v : Name) : Prop :=
+  ∃ to ti, outType b src v = some to ∧ inType b dst v = some ti ∧ compat to ti = true
+
+theorem typedOK_iff_triple {b : BuildInput} {e : Edge} {v : Name} :
+    TypedOK b e v ↔ TypedTriple b e.src e.dst v := Iff.rfl
+
 /-! ## mutual exclusion -/
 
 theorem contains_reachSet_false {V adj t v} :
     (reachSet V adj t V.length).contains v = false ↔ ¬ Reach V adj t v := by
   rw [← mem_reachSet_iff, ← List.contains_iff_mem]; simp
 
-theorem pairMutexIn_exclSets {V adj T a c} :
-    pairMutexIn (exclSets V adj T) a c = true ↔
-      ∃ t1 ∈ T, ∃ t2 ∈ T, t1 ≠ t2 ∧ Excl V adj T t1 a ∧ Excl V adj T t2 c := by
-  unfold pairMutexIn exclSets Excl
-  simp only [List.any_map, List.any_eq_true, Function.comp, Bool.and_eq_true, bne_iff_ne, ne_eq,
-    List.contains_iff_mem, List.mem_filter, List.all_map, List.all_eq_true, Bool.or_eq_true, beq_iff_eq,
-    Bool.not_eq_true', mem_reachSet_iff, contains_reachSet_false]
+/-- the candidates of the target `t` (`exclSetsReach … T` at `t`) -/
+def candOf (V : List Name) (adj : Name → Name → Bool) (T : List Name) (t : Name) : List Name :=
+  (reachSet V adj t V.length).filter fun v =>
+    T.all fun t' => t' == t || !(reachSet V adj t' V.length).contains v
+
+theorem mem_candOf {V adj T t v} : v ∈ candOf V adj T t ↔ Excl V adj T t v := by
+  unfold candOf Excl
+  simp only [List.mem_filter, List.all_eq_true, Bool.or_eq_true, beq_iff_eq, Bool.not_eq_true',
+    mem_reachSet_iff, contains_reachSet_false]
   constructor
-  · rintro ⟨t1, h1, t2, h2, ⟨hne, hr1, he1⟩, hr2, he2⟩
-    exact ⟨t1, h1, t2, h2, hne, ⟨hr1, fun t' ht' hn => (he1 t' ht').resolve_left hn⟩,
-      hr2, fun t' ht' hn => (he2 t' ht').resolve_left hn⟩
-  · rintro ⟨t1, h1, t2, h2, hne, ⟨hr1, he1⟩, hr2, he2⟩
-    refine ⟨t1, h1, t2, h2, ⟨hne, hr1, fun t' ht' => ?_⟩, hr2, fun t' ht' => ?_⟩
-    · by_cases h : t' = t1
-      · exact .inl h
-      · exact .inr (he1 t' ht' h)
-    · by_cases h : t' = t2
-      · exact .inl h
-      · exact .inr (he2 t' ht' h)
+  · rintro ⟨hr, he⟩
+    exact ⟨hr, fun t' ht' hn => (he t' ht').resolve_left hn⟩
+  · rintro ⟨hr, he⟩
+    refine ⟨hr, fun t' ht' => ?_⟩
+    by_cases h : t' = t
+    · exact .inl h
+    · exact .inr (he t' ht' h)
+
+theorem exclSetsReach_eq (V : List Name) (adj : Name → Name → Bool) (T : List Name) :
+    exclSetsReach V adj T = T.map fun t => (t, candOf V adj T t) := by
+  unfold exclSetsReach candOf
+  simp only [List.map_map, List.all_map]
+  rfl
+
+theorem exclSets_eq (nodes : List NodeD) (V : List Name) (adj : Name → Name → Bool) (gate : Name)
+    (T : List Name) :
+    exclSets nodes V adj gate T = T.map fun t => (t, branchOf nodes gate t (candOf V adj T t)) := by
+  unfold exclSets
+  rw [exclSetsReach_eq, List.map_map]
+  rfl
+
+theorem pairMutexIn_map {T : List Name} {f : Name → List Name} {a c : Name} :
+    pairMutexIn (T.map fun t => (t, f t)) a c = true ↔
+      ∃ t1 ∈ T, ∃ t2 ∈ T, t1 ≠ t2 ∧ a ∈ f t1 ∧ c ∈ f t2 := by
+  unfold pairMutexIn
+  simp only [List.any_map, List.any_eq_true, Function.comp, Bool.and_eq_true, bne_iff_ne, ne_eq,
+    List.contains_iff_mem]
+  constructor
+  · rintro ⟨t1, h1, t2, h2, ⟨hne, ha⟩, hc⟩
+    exact ⟨t1, h1, t2, h2, hne, ha, hc⟩
+  · rintro ⟨t1, h1, t2, h2, hne, ha, hc⟩
+    exact ⟨t1, h1, t2, h2, ⟨hne, ha⟩, hc⟩
+
+/-- the pre-repair branch sets: reachable from one target only -/
+theorem pairMutexIn_exclSetsReach {V adj T a c} :
+    pairMutexIn (exclSetsReach V adj T) a c = true ↔
+      ∃ t1 ∈ T, ∃ t2 ∈ T, t1 ≠ t2 ∧ Excl V adj T t1 a ∧ Excl V adj T t2 c := by
+  rw [exclSetsReach_eq, pairMutexIn_map]
+  simp only [mem_candOf]
+
+/-! ### gates routing to a node, `needs` -/
+
+theorem mem_controllersOf {nodes : List NodeD} {n c : Name} :
+    c ∈ controllersOf nodes n ↔ ∃ g ∈ nodes, g.isGate = true ∧ n ∈ g.targetNames ∧ g.name = c := by
+  simp only [controllersOf, List.mem_map, List.mem_filter, Bool.and_eq_true, List.contains_iff_mem]
+  constructor
+  · rintro ⟨g, ⟨hg, h1, h2⟩, rfl⟩
+    exact ⟨g, hg, h1, h2, rfl⟩
+  · rintro ⟨g, hg, h1, h2, rfl⟩
+    exact ⟨g, ⟨hg, h1, h2⟩, rfl⟩
+
+theorem soleController_iff {nodes : List NodeD} {gate t : Name} :
+    (controllersOf nodes t).all (· == gate) = true ↔ SoleController nodes gate t := by
+  simp only [List.all_eq_true, beq_iff_eq, mem_controllersOf, SoleController]
+  constructor
+  · intro h g hg h1 h2
+    exact h _ ⟨g, hg, h1, h2, rfl⟩
+  · rintro h c ⟨g, hg, h1, h2, rfl⟩
+    exact h g hg h1 h2
+
+theorem NeedsBranch.mono {nodes : List NodeD} {B B' : Name → Prop} {m : Name} (h : ∀ x, B x → B' x)
+    (hn : NeedsBranch nodes B m) : NeedsBranch nodes B' m := by
+  rcases hn with ⟨nd, hnd, hname, p, hp, hd, hne, hall⟩ | ⟨nd, hnd, hname, w, hw, hne, hall⟩ | ⟨hne, hall⟩
+  · exact .inl ⟨nd, hnd, hname, p, hp, hd, hne, fun s hs => h s (hall s hs)⟩
+  · exact .inr (.inl ⟨nd, hnd, hname, w, hw, hne, fun s hs => h s (hall s hs)⟩)
+  · exact .inr (.inr ⟨hne, fun c hc => h c (hall c hc)⟩)
+
+theorem isEmpty_not_iff {α : Type} {l : List α} : (!l.isEmpty) = true ↔ l ≠ [] := by
+  cases l <;> simp
+
+theorem srcCond_iff {S B : List Name} :
+    (!S.isEmpty && S.all fun s => B.contains s) = true ↔ S ≠ [] ∧ ∀ s ∈ S, s ∈ B := by
+  rw [Bool.and_eq_true, isEmpty_not_iff, List.all_eq_true]
+  simp only [List.contains_iff_mem]
+
+theorem needsBranch_iff {nodes : List NodeD} {B : List Name} {m : Name} :
+    needsBranch nodes B m = true ↔ NeedsBranch nodes (· ∈ B) m := by
+  unfold needsBranch NeedsBranch
+  rw [Bool.or_eq_true, List.any_eq_true, srcCond_iff]
+  constructor
+  · rintro (⟨nd, hnd, h⟩ | h)
+    · rw [Bool.and_eq_true, beq_iff_eq, Bool.or_eq_true, List.any_eq_true, List.any_eq_true] at h
+      obtain ⟨hname, ⟨p, hp, h⟩ | ⟨w, hw, h⟩⟩ := h
+      · rw [Bool.and_eq_true, srcCond_iff] at h
+        obtain ⟨⟨hne, hall⟩, hd⟩ := h
+        refine .inl ⟨nd, hnd, hname, p, hp, ?_, hne, hall⟩
+        intro hm
+        rw [List.contains_iff_mem.mpr hm] at hd
+        cases hd
+      · obtain ⟨hne, hall⟩ := srcCond_iff.mp h
+        exact .inr (.inl ⟨nd, hnd, hname, w, hw, hne, hall⟩)
+    · exact .inr (.inr h)
+  · rintro (⟨nd, hnd, hname, p, hp, hd, hne, hall⟩ | ⟨nd, hnd, hname, w, hw, hne, hall⟩ | h)
+    · refine .inl ⟨nd, hnd, ?_⟩
+      rw [Bool.and_eq_true, beq_iff_eq, Bool.or_eq_true, List.any_eq_true]
+      refine ⟨hname, .inl ⟨p, hp, ?_⟩⟩
+      rw [Bool.and_eq_true, srcCond_iff]
+      refine ⟨⟨hne, hall⟩, ?_⟩
+      cases hc : nd.hasDefault.contains p
+      · rfl
+      · exact absurd (List.contains_iff_mem.mp hc) hd
+    · refine .inl ⟨nd, hnd, ?_⟩
+      rw [Bool.and_eq_true, beq_iff_eq, Bool.or_eq_true, List.any_eq_true, List.any_eq_true]
+      exact ⟨hname, .inr ⟨w, hw, srcCond_iff.mpr ⟨hne, hall⟩⟩⟩
+    · exact .inr h
+
+theorem needsBranch_mono {nodes : List NodeD} {B B' : List Name} {m : Name} (h : ∀ x ∈ B, x ∈ B')
+    (hn : needsBranch nodes B m = true) : needsBranch nodes B' m = true :=
+  needsBranch_iff.mpr ((needsBranch_iff.mp hn).mono h)
+
+/-! ### the declarative branch -/
+
+/-- the three `via…` constructors as one: a candidate that needs the branch is in it -/
+theorem InBranch.step {nodes V adj T gate t m} (he : Excl V adj T t m)
+    (hn : NeedsBranch nodes (InBranch nodes V adj T gate t) m) : InBranch nodes V adj T gate t m := by
+  rcases hn with ⟨nd, hnd, hname, p, hp, hd, hne, hall⟩ | ⟨nd, hnd, hname, w, hw, hne, hall⟩ | ⟨hne, hall⟩
+  · exact .viaInput he hnd hname hp hd hne hall
+  · exact .viaSignal he hnd hname hw hne hall
+  · exact .viaGate he hne hall
+
+theorem exists_mem_of_ne_nil' {α : Type} {l : List α} (h : l ≠ []) : ∃ x, x ∈ l := by
+  cases l with
+  | nil => exact absurd rfl h
+  | cons x _ => exact ⟨x, List.mem_cons_self ..⟩
+
+/-- a branch is non-empty only if no other gate routes to its target -/
+theorem InBranch.sole {nodes V adj T gate t m} (h : InBranch nodes V adj T gate t m) :
+    SoleController nodes gate t := by
+  induction h with
+  | root hs => exact hs
+  | viaInput _ _ _ _ _ hne _ ih =>
+    obtain ⟨s, hs⟩ := exists_mem_of_ne_nil' hne
+    exact ih s hs
+  | viaSignal _ _ _ _ hne _ ih =>
+    obtain ⟨s, hs⟩ := exists_mem_of_ne_nil' hne
+    exact ih s hs
+  | viaGate _ hne _ ih =>
+    obtain ⟨s, hs⟩ := exists_mem_of_ne_nil' hne
+    exact ih s hs
+
+/-- every member of a branch is its target or a pre-repair member (reachable from that target only) -/
+theorem InBranch.root_or_excl {nodes V adj T gate t m} (h : InBranch nodes V adj T gate t m) :
+    m = t ∨ Excl V adj T t m := by
+  cases h with
+  | root _ => exact .inl rfl
+  | viaInput he _ _ _ _ _ _ => exact .inr he
+  | viaSignal he _ _ _ _ _ => exact .inr he
+  | viaGate he _ _ => exact .inr he
+
+/-- inversion: a member is the target, or a candidate that needs the branch -/
+theorem InBranch.needs {nodes V adj T gate t m} (h : InBranch nodes V adj T gate t m) :
+    m = t ∨ (Excl V adj T t m ∧ NeedsBranch nodes (InBranch nodes V adj T gate t) m) := by
+  cases h with
+  | root _ => exact .inl rfl
+  | @viaInput _ p nd he hnd hname hp hd hne hall =>
+    exact .inr ⟨he, .inl ⟨nd, hnd, hname, p, hp, hd, hne, hall⟩⟩
+  | @viaSignal _ w nd he hnd hname hw hne hall =>
+    exact .inr ⟨he, .inr (.inl ⟨nd, hnd, hname, w, hw, hne, hall⟩)⟩
+  | viaGate he hne hall => exact .inr ⟨he, .inr (.inr ⟨hne, hall⟩)⟩
+
+/-- the fixpoint equation of the branch -/
+theorem inBranch_iff {nodes V adj T gate t m} :
+    InBranch nodes V adj T gate t m ↔
+      SoleController nodes gate t ∧
+        (m = t ∨ (Excl V adj T t m ∧ NeedsBranch nodes (InBranch nodes V adj T gate t) m)) := by
+  constructor
+  · intro h; exact ⟨h.sole, h.needs⟩
+  · rintro ⟨hs, rfl | ⟨he, hn⟩⟩
+    · exact .root hs
+    · exact .step he hn
+
+/-- the branch only depends on the graph through its candidates -/
+theorem InBranch.congr {nodes V adj T V' adj' T' gate t m}
+    (hx : ∀ v, Excl V adj T t v → Excl V' adj' T' t v) (h : InBranch nodes V adj T gate t m) :
+    InBranch nodes V' adj' T' gate t m := by
+  induction h with
+  | root hs => exact .root hs
+  | viaInput he hnd hname hp hd hne _ ih => exact .viaInput (hx _ he) hnd hname hp hd hne ih
+  | viaSignal he hnd hname hw hne _ ih => exact .viaSignal (hx _ he) hnd hname hw hne ih
+  | viaGate he hne _ ih => exact .viaGate (hx _ he) hne ih
+
+/-! ### `branchRounds` computes it -/
+
+/-- the predicate whose filter is `branchRounds … k` -/
+def branchPred (nodes : List NodeD) (t : Name) (cand : List Name) : Nat → Name → Bool
+  | 0 => fun _ => false
+  | k + 1 => fun m =>
+      (branchRounds nodes t cand k).contains m || needsBranch nodes (t :: branchRounds nodes t cand k) m
+
+theorem branchRounds_eq_filter (nodes t cand k) :
+    branchRounds nodes t cand k = cand.filter (branchPred nodes t cand k) := by
+  cases k with
+  | zero => simp [branchRounds, branchPred]
+  | succ k => rfl
+
+theorem branchRounds_sub {nodes t cand k v} (h : v ∈ branchRounds nodes t cand k) : v ∈ cand := by
+  rw [branchRounds_eq_filter] at h; exact (List.mem_filter.mp h).1
+
+theorem mem_branchRounds_succ {nodes t cand k v} :
+    v ∈ branchRounds nodes t cand (k + 1) ↔
+      v ∈ cand ∧ (v ∈ branchRounds nodes t cand k ∨
+        needsBranch nodes (t :: branchRounds nodes t cand k) v = true) := by
+  simp [branchRounds, branchStep, List.mem_filter]
+
+theorem branchRounds_mono {nodes t cand k v} (h : v ∈ branchRounds nodes t cand k) :
+    v ∈ branchRounds nodes t cand (k + 1) :=
+  mem_branchRounds_succ.mpr ⟨branchRounds_sub h, .inl h⟩
+
+theorem branchRounds_mono_le {nodes t cand k k' v} (hk : k ≤ k') (h : v ∈ branchRounds nodes t cand k) :
+    v ∈ branchRounds nodes t cand k' := by
+  induction hk with
+  | refl => exact h
+  | step _ ih => exact branchRounds_mono ih
+
+/-- once a round adds nothing, no later round does -/
+theorem branchRounds_stable {nodes t cand j}
+    (hst : ∀ v ∈ branchRounds nodes t cand (j + 1), v ∈ branchRounds nodes t cand j) :
+    ∀ m v, v ∈ branchRounds nodes t cand (j + m) → v ∈ branchRounds nodes t cand j := by
+  intro m
+  induction m with
+  | zero => intro v h; exact h
+  | succ m ih =>
+    intro v h
+    have h' : v ∈ branchRounds nodes t cand (j + m + 1) := h
+    obtain ⟨hv, h1 | hn⟩ := mem_branchRounds_succ.mp h'
+    · exact ih v h1
+    · refine hst v (mem_branchRounds_succ.mpr ⟨hv, .inr (needsBranch_mono ?_ hn)⟩)
+      intro x hx
+      rcases List.mem_cons.mp hx with rfl | hx
+      · exact List.mem_cons_self ..
+      · exact List.mem_cons_of_mem _ (ih x hx)
+
+/-- after `k` rounds either some earlier round was already stable or at least `k` candidates are in -/
+theorem branchRounds_grow_or_stable (nodes t cand) (k : Nat) :
+    (∃ j, j < k ∧ ∀ v ∈ branchRounds nodes t cand (j + 1), v ∈ branchRounds nodes t cand j) ∨
+      k ≤ (branchRounds nodes t cand k).length := by
+  induction k with
+  | zero => exact .inr (Nat.zero_le _)
+  | succ k ih =>
+    rcases ih with ⟨j, hj, hst⟩ | hlen
+    · exact .inl ⟨j, Nat.lt_succ_of_lt hj, hst⟩
+    · by_cases h : ∀ v ∈ branchRounds nodes t cand (k + 1), v ∈ branchRounds nodes t cand k
+      · exact .inl ⟨k, Nat.lt_succ_self _, h⟩
+      · right
+        have hex : ∃ v, v ∈ branchRounds nodes t cand (k + 1) ∧ v ∉ branchRounds nodes t cand k :=
+          Classical.byContradiction fun hn => h fun v hv =>
+            Classical.byContradiction fun hv' => hn ⟨v, hv, hv'⟩
+        obtain ⟨v, hv, hv'⟩ := hex
+        have hlt : (branchRounds nodes t cand k).length < (branchRounds nodes t cand (k + 1)).length := by
+          rw [branchRounds_eq_filter nodes t cand k, branchRounds_eq_filter nodes t cand (k + 1)]
+          refine filter_length_lt (x := v) ?_ (branchRounds_sub hv) ?_ ?_
+          · intro x hx hp
+            have : x ∈ branchRounds nodes t cand k := by
+              rw [branchRounds_eq_filter]; exact List.mem_filter.mpr ⟨hx, hp⟩
+            have := branchRounds_mono this
+            rw [branchRounds_eq_filter] at this; exact (List.mem_filter.mp this).2
+          · rw [branchRounds_eq_filter] at hv; exact (List.mem_filter.mp hv).2
+          · intro hp; apply hv'
+            rw [branchRounds_eq_filter]; exact List.mem_filter.mpr ⟨branchRounds_sub hv, hp⟩
+        omega
+
+/-- `|cand|` rounds reach the fixpoint -/
+theorem branchRounds_closed {nodes t cand k v} (h : v ∈ branchRounds nodes t cand k) :
+    v ∈ branchRounds nodes t cand cand.length := by
+  rcases branchRounds_grow_or_stable nodes t cand (cand.length + 1) with ⟨j, hj, hst⟩ | hlen
+  · have hj' : j ≤ cand.length := Nat.le_of_lt_succ hj
+    by_cases hkj : k ≤ j
+    · exact branchRounds_mono_le (Nat.le_trans hkj hj') h
+    · have : k = j + (k - j) := by omega
+      rw [this] at h
+      exact branchRounds_mono_le hj' (branchRounds_stable hst _ _ h)
+  · exfalso
+    have : (branchRounds nodes t cand (cand.length + 1)).length ≤ cand.length := by
+      rw [branchRounds_eq_filter]; exact List.length_filter_le _ _
+    omega
+
+theorem branchRounds_sound {nodes V adj T gate t cand} (hc : ∀ v, v ∈ cand → Excl V adj T t v)
+    (hs : SoleController nodes gate t) :
+    ∀ k v, v ∈ branchRounds nodes t cand k → InBranch nodes V adj T gate t v := by
+  intro k
+  induction k with
+  | zero => intro v h; cases h
+  | succ k ih =>
+    intro v h
+    obtain ⟨hv, h1 | hn⟩ := mem_branchRounds_succ.mp h
+    · exact ih v h1
+    · refine .step (hc v hv) ((needsBranch_iff.mp hn).mono ?_)
+      intro x hx
+      rcases List.mem_cons.mp hx with rfl | hx
+      · exact .root hs
+      · exact ih x hx
+
+theorem inBranch_mem_rounds {nodes V adj T gate t cand} (hc : ∀ v, Excl V adj T t v → v ∈ cand) {v : Name}
+    (h : InBranch nodes V adj T gate t v) : v ∈ t :: branchRounds nodes t cand cand.length := by
+  have close : ∀ m, Excl V adj T t m →
+      NeedsBranch nodes (· ∈ t :: branchRounds nodes t cand cand.length) m →
+      m ∈ t :: branchRounds nodes t cand cand.length := fun m he hn =>
+    List.mem_cons_of_mem _ (branchRounds_closed (k := cand.length + 1)
+      (mem_branchRounds_succ.mpr ⟨hc m he, .inr (needsBranch_iff.mpr hn)⟩))
+  induction h with
+  | root _ => exact List.mem_cons_self ..
+  | @viaInput _ p nd he hnd hname hp hd hne _ ih =>
+    exact close _ he (.inl ⟨nd, hnd, hname, p, hp, hd, hne, ih⟩)
+  | @viaSignal _ w nd he hnd hname hw hne _ ih =>
+    exact close _ he (.inr (.inl ⟨nd, hnd, hname, w, hw, hne, ih⟩))
+  | viaGate he hne _ ih => exact close _ he (.inr (.inr ⟨hne, ih⟩))
+
+/-- KEY: the rounds-based branch is the declarative one -/
+theorem mem_branchOf_iff {nodes V adj T gate t cand} (hc : ∀ v, v ∈ cand ↔ Excl V adj T t v) {v : Name} :
+    v ∈ branchOf nodes gate t cand ↔ InBranch nodes V adj T gate t v := by
+  unfold branchOf
+  by_cases hs : (controllersOf nodes t).all (· == gate) = true
+  · rw [if_pos hs]
+    have hs' := soleController_iff.mp hs
+    constructor
+    · intro h
+      rcases List.mem_cons.mp h with rfl | h
+      · exact .root hs'
+      · exact branchRounds_sound (fun v hv => (hc v).mp hv) hs' _ v h
+    · exact inBranch_mem_rounds fun v hv => (hc v).mpr hv
+  · rw [if_neg hs]
+    constructor
+    · intro h; cases h
+    · intro h; exact absurd (soleController_iff.mpr h.sole) hs
+
+theorem pairMutexIn_exclSets {nodes V adj gate T a c} :
+    pairMutexIn (exclSets nodes V adj gate T) a c = true ↔
+      ∃ t1 ∈ T, ∃ t2 ∈ T, t1 ≠ t2 ∧ InBranch nodes V adj T gate t1 a ∧ InBranch nodes V adj T gate t2 c := by
+  rw [exclSets_eq, pairMutexIn_map]
+  simp only [mem_branchOf_iff (fun _ => mem_candOf)]
 
 theorem two_le_length_of_ne {α : Type} {l : List α} {x y : α} (hx : x ∈ l) (hy : y ∈ l) (hne : x ≠ y) :
     2 ≤ l.length := by
@@ -314,7 +688,7 @@ theorem two_le_length_of_ne {α : Type} {l : List α} {x y : α} (hx : x ∈ l) 
 
 theorem isPairMutex_expandedGroups {nodes : List NodeD} {V adj a c} :
     isPairMutex (expandedGroups nodes V adj) a c = true ↔
-      ∃ g ∈ nodes, exclusiveGate g = true ∧ MutexVia V adj g a c := by
+      ∃ g ∈ nodes, exclusiveGate g = true ∧ MutexVia nodes V adj g a c := by
   unfold isPairMutex expandedGroups MutexVia
   rw [List.any_eq_true]
   constructor
@@ -328,7 +702,31 @@ theorem isPairMutex_expandedGroups {nodes : List NodeD} {V adj a c} :
       subst hsome
       exact pairMutexIn_exclSets.mp hm
   · rintro ⟨g, hgn, hge, t1, h1, t2, h2, hne, hex⟩
-    refine ⟨exclSets V adj (knownTargets V g), ?_, pairMutexIn_exclSets.mpr ⟨t1, h1, t2, h2, hne, hex⟩⟩
+    refine ⟨exclSets nodes V adj g.name (knownTargets V g), ?_,
+      pairMutexIn_exclSets.mpr ⟨t1, h1, t2, h2, hne, hex⟩⟩
+    refine List.mem_filterMap.mpr ⟨g, List.mem_filter.mpr ⟨hgn, hge⟩, ?_⟩
+    have := two_le_length_of_ne h1 h2 hne
+    have hl : ¬ (knownTargets V g).length < 2 := by omega
+    simp [hl]
+
+theorem isPairMutex_expandedGroupsReach {nodes : List NodeD} {V adj a c} :
+    isPairMutex (expandedGroupsReach nodes V adj) a c = true ↔
+      ∃ g ∈ nodes, exclusiveGate g = true ∧ MutexViaReach V adj g a c := by
+  unfold isPairMutex expandedGroupsReach MutexViaReach
+  rw [List.any_eq_true]
+  constructor
+  · rintro ⟨br, hbr, hm⟩
+    obtain ⟨g, hg, hsome⟩ := List.mem_filterMap.mp hbr
+    obtain ⟨hgn, hge⟩ := List.mem_filter.mp hg
+    refine ⟨g, hgn, hge, ?_⟩
+    by_cases hl : (knownTargets V g).length < 2
+    · simp [hl] at hsome
+    · simp only [hl, if_false, Option.some.injEq] at hsome
+      subst hsome
+      exact pairMutexIn_exclSetsReach.mp hm
+  · rintro ⟨g, hgn, hge, t1, h1, t2, h2, hne, hex⟩
+    refine ⟨exclSetsReach V adj (knownTargets V g), ?_,
+      pairMutexIn_exclSetsReach.mpr ⟨t1, h1, t2, h2, hne, hex⟩⟩
     refine List.mem_filterMap.mpr ⟨g, List.mem_filter.mpr ⟨hgn, hge⟩, ?_⟩
     have := two_le_length_of_ne h1 h2 hne
     have hl : ¬ (knownTargets V g).length < 2 := by omega
@@ -338,13 +736,60 @@ theorem excl_rows {V : List Name} {adj : Name → Name → Bool} {T t v} :
     Excl V (rowsAdj (adjRows V adj)) T t v ↔ Excl V adj T t v := by
   simp only [Excl, reach_rows]
 
-theorem mutexVia_rows {V : List Name} {adj : Name → Name → Bool} {g a c} :
-    MutexVia V (rowsAdj (adjRows V adj)) g a c ↔ MutexVia V adj g a c := by
-  simp only [MutexVia, excl_rows]
+theorem inBranch_rows {nodes : List NodeD} {V : List Name} {adj : Name → Name → Bool} {T gate t m} :
+    InBranch nodes V (rowsAdj (adjRows V adj)) T gate t m ↔ InBranch nodes V adj T gate t m :=
+  ⟨InBranch.congr fun _ h => excl_rows.mp h, InBranch.congr fun _ h => excl_rows.mpr h⟩
+
+theorem mutexVia_rows {nodes : List NodeD} {V : List Name} {adj : Name → Name → Bool} {g a c} :
+    MutexVia nodes V (rowsAdj (adjRows V adj)) g a c ↔ MutexVia nodes V adj g a c := by
+  simp only [MutexVia, inBranch_rows]
+
+theorem mutexViaReach_rows {V : List Name} {adj : Name → Name → Bool} {g a c} :
+    MutexViaReach V (rowsAdj (adjRows V adj)) g a c ↔ MutexViaReach V adj g a c := by
+  simp only [MutexViaReach, excl_rows]
 
 theorem Mutex.symm {b a c} (h : Mutex b a c) : Mutex b c a := by
   obtain ⟨g, hg, he, t1, h1, t2, h2, hne, ha, hc⟩ := h
   exact ⟨g, hg, he, t2, h2, t1, h1, fun h => hne h.symm, hc, ha⟩
+
+theorem MutexReach.symm {b a c} (h : MutexReach b a c) : MutexReach b c a := by
+  obtain ⟨g, hg, he, t1, h1, t2, h2, hne, ha, hc⟩ := h
+  exact ⟨g, hg, he, t2, h2, t1, h1, fun h => hne h.symm, hc, ha⟩
+
+/-- no target (that is a node) of an exclusive gate is reachable in the built graph from another target
+of the same gate -/
+def TargetsApart (b : BuildInput) : Prop :=
+  ∀ g ∈ b.nodes, exclusiveGate g = true → ∀ t ∈ knownTargets (nodeNames b) g,
+    ∀ t' ∈ knownTargets (nodeNames b) g, t' ≠ t → ¬ Reach (nodeNames b) (hasEdge (graphEdges b)) t' t
+
+theorem mem_of_mem_knownTargets {V : List Name} {g : NodeD} {t : Name} (h : t ∈ knownTargets V g) : t ∈ V := by
+  unfold knownTargets at h
+  exact List.contains_iff_mem.mp (List.mem_filter.mp h).2
+
+/-- a pair the repaired rule calls exclusive is, member by member, a target of the gate or a pre-repair
+member of that target's branch -/
+theorem MutexVia.root_or_excl {nodes V adj g a c} (h : MutexVia nodes V adj g a c) :
+    ∃ t1 ∈ knownTargets V g, ∃ t2 ∈ knownTargets V g, t1 ≠ t2 ∧
+      (a = t1 ∨ Excl V adj (knownTargets V g) t1 a) ∧ (c = t2 ∨ Excl V adj (knownTargets V g) t2 c) := by
+  obtain ⟨t1, h1, t2, h2, hne, ha, hc⟩ := h
+  exact ⟨t1, h1, t2, h2, hne, ha.root_or_excl, hc.root_or_excl⟩
+
+/-- where no target of an exclusive gate lies below a sibling target, the repaired rule calls no more
+pairs exclusive than the pre-repair one did (without the hypothesis it does:
+`HG.C19s.loop_back_branches_now_mutex_witness`) -/
+theorem Mutex.mutexReach {b a c} (hap : TargetsApart b) (h : Mutex b a c) : MutexReach b a c := by
+  obtain ⟨g, hg, he, hm⟩ := h
+  obtain ⟨t1, h1, t2, h2, hne, ha, hc⟩ := hm.root_or_excl
+  have self : ∀ t ∈ knownTargets (nodeNames b) g,
+      Excl (nodeNames b) (hasEdge (graphEdges b)) (knownTargets (nodeNames b) g) t t := fun t ht =>
+    ⟨.refl (mem_of_mem_knownTargets ht), fun t' ht' hn => hap g hg he t ht t' ht' hn⟩
+  refine ⟨g, hg, he, t1, h1, t2, h2, hne, ?_, ?_⟩
+  · rcases ha with rfl | ha
+    · exact self _ h1
+    · exact ha
+  · rcases hc with rfl | hc
+    · exact self _ h2
+    · exact hc
 
 theorem Ordered.symm {b o a c} (h : Ordered b o a c) : Ordered b o c a := Or.symm h
 
@@ -629,17 +1074,60 @@ theorem chkWaitFor_none {b : BuildInput} :
   unfold chkWaitFor
   simp [List.findSome?_eq_none_iff]
 
-theorem chkTypesEdge_none {b : BuildInput} {e : Edge} :
-    chkTypesEdge b e = none ↔ ∀ v ∈ e.values, TypedOK b e v := by
-  unfold chkTypesEdge TypedOK
-  rw [List.findSome?_eq_none_iff]
-  refine forall_congr' fun v => forall_congr' fun _ => ?_
-  cases ho : outType b e.src v with
+theorem chkTypesTriple_none {b : BuildInput} {src dst v : Name} :
+    chkTypesTriple b src dst v = none ↔ TypedTriple b src dst v := by
+  unfold chkTypesTriple TypedTriple
+  cases ho : outType b src v with
   | none => simp
   | some to =>
-    cases hi : inType b e.dst v with
+    cases hi : inType b dst v with
     | none => simp
     | some ti => cases hc : compat to ti <;> simp [hc]
+
+theorem chkTypesEdge_none {b : BuildInput} {e : Edge} :
+    chkTypesEdge b e = none ↔ ∀ v ∈ e.values, TypedOK b e v := by
+  unfold chkTypesEdge
+  rw [List.findSome?_eq_none_iff]
+  exact forall_congr' fun v => forall_congr' fun _ => chkTypesTriple_none
+
+theorem mem_dataSourcesOf {nodes : List NodeD} {v s : Name} :
+    s ∈ dataSourcesOf nodes v ↔ ∃ p ∈ nodes, p.name = s ∧ v ∈ p.dataOuts := by
+  simp only [dataSourcesOf, List.mem_map, List.mem_filter, List.contains_iff_mem]
+  constructor
+  · rintro ⟨p, ⟨h1, h2⟩, rfl⟩; exact ⟨p, h1, rfl, h2⟩
+  · rintro ⟨p, h1, rfl, h2⟩; exact ⟨p, ⟨h1, h2⟩, rfl⟩
+
+theorem mem_typeSourcesFor {b : BuildInput} {e : Edge} {v s : Name} :
+    s ∈ typeSourcesFor b e v ↔
+      s = e.src ∨ ∃ p ∈ b.nodes, p.name = s ∧ v ∈ p.dataOuts ∧ p.name ≠ e.src ∧ p.name ≠ e.dst := by
+  unfold typeSourcesFor
+  rw [List.mem_cons, List.mem_filter, mem_dataSourcesOf]
+  simp only [Bool.and_eq_true, bne_iff_ne, ne_eq]
+  constructor
+  · rintro (h | ⟨⟨p, hp, rfl, hv⟩, h1, h2⟩)
+    · exact .inl h
+    · exact .inr ⟨p, hp, rfl, hv, h1, h2⟩
+  · rintro (h | ⟨p, hp, rfl, hv, h1, h2⟩)
+    · exact .inl h
+    · exact .inr ⟨⟨p, hp, rfl, hv⟩, h1, h2⟩
+
+/-- every value of the edge is typed against the edge's own source AND against every other data producer -/
+theorem chkTypesEdgeProducers_none {b : BuildInput} {e : Edge} :
+    chkTypesEdgeProducers b e = none ↔
+      ∀ v ∈ e.values, TypedOK b e v ∧
+        ∀ p ∈ b.nodes, v ∈ p.dataOuts → p.name ≠ e.src → p.name ≠ e.dst →
+          TypedOK b { e with src := p.name } v := by
+  unfold chkTypesEdgeProducers
+  rw [List.findSome?_eq_none_iff]
+  refine forall_congr' fun v => forall_congr' fun _ => ?_
+  rw [List.findSome?_eq_none_iff]
+  simp only [chkTypesTriple_none, mem_typeSourcesFor]
+  constructor
+  · intro h
+    exact ⟨h e.src (.inl rfl), fun p hp hv h1 h2 => h p.name (.inr ⟨p, hp, rfl, hv, h1, h2⟩)⟩
+  · rintro ⟨h0, h⟩ s (rfl | ⟨p, hp, rfl, hv, h1, h2⟩)
+    · exact h0
+    · exact h p hp hv h1 h2
 
 theorem mem_nxOrder {nodes : List NodeD} {es : List Edge} {e : Edge} : e ∈ nxOrder nodes es ↔ e ∈ es := by
   unfold nxOrder
@@ -656,8 +1144,38 @@ theorem mem_nxOrder {nodes : List NodeD} {es : List Edge} {e : Edge} : e ∈ nxO
 
 theorem chkTypes_none {b : BuildInput} :
     chkTypes b = none ↔
-      (b.strict = true → ∀ e ∈ graphEdges b, e.kind ≠ .ordering → ∀ v ∈ e.values, TypedOK b e v) := by
+      (b.strict = true → ∀ e ∈ graphEdges b, e.kind ≠ .ordering → ∀ v ∈ e.values, TypedOK b e v ∧
+        ∀ p ∈ b.nodes, v ∈ p.dataOuts → p.name ≠ e.src → p.name ≠ e.dst →
+          TypedOK b { e with src := p.name } v) := by
   unfold chkTypes
+  cases hs : b.strict
+  · simp
+  · simp only [if_true, List.findSome?_eq_none_iff, mem_nxOrder, forall_const]
+    refine forall_congr' fun e => forall_congr' fun _ => ?_
+    by_cases hk : e.kind = .ordering
+    · simp [hk]
+    · simp only [beq_iff_eq, hk, if_false, ne_eq, not_false_eq_true, forall_const]
+      exact chkTypesEdgeProducers_none
+
+/-- the two halves of `chkTypes_none`, as they appear in `WellFormed` -/
+theorem chkTypes_none_split {b : BuildInput} :
+    chkTypes b = none ↔
+      (b.strict = true → ∀ e ∈ graphEdges b, e.kind ≠ .ordering → ∀ v ∈ e.values, TypedOK b e v) ∧
+      (b.strict = true → ∀ e ∈ graphEdges b, e.kind ≠ .ordering → ∀ v ∈ e.values,
+        ∀ p ∈ b.nodes, v ∈ p.dataOuts → p.name ≠ e.src → p.name ≠ e.dst →
+          TypedOK b { e with src := p.name } v) := by
+  rw [chkTypes_none]
+  constructor
+  · intro h
+    exact ⟨fun hs e he hk v hv => (h hs e he hk v hv).1, fun hs e he hk v hv => (h hs e he hk v hv).2⟩
+  · rintro ⟨h1, h2⟩ hs e he hk v hv
+    exact ⟨h1 hs e he hk v hv, h2 hs e he hk v hv⟩
+
+/-- the pre-repair check: the edge's own (first-listed) producer only -/
+theorem chkTypesFirstProducer_none {b : BuildInput} :
+    chkTypesFirstProducer b = none ↔
+      (b.strict = true → ∀ e ∈ graphEdges b, e.kind ≠ .ordering → ∀ v ∈ e.values, TypedOK b e v) := by
+  unfold chkTypesFirstProducer
   cases hs : b.strict
   · simp
   · simp only [if_true, List.findSome?_eq_none_iff, mem_nxOrder, forall_const]
@@ -674,9 +1192,18 @@ theorem chkTypesAllEdges_none {b : BuildInput} :
   · simp
   · simp only [if_true, List.findSome?_eq_none_iff, mem_nxOrder, chkTypesEdge_none, forall_const]
 
-/-- the repair only ever accepts more: whatever the pre-repair type check passed, the repaired one passes -/
-theorem chkTypes_of_allEdges {b : BuildInput} (h : chkTypesAllEdges b = none) : chkTypes b = none :=
-  chkTypes_none.mpr fun hs e he _ => chkTypesAllEdges_none.mp h hs e he
+/-- the repair "strict typing skips ordering edges" only ever accepts more: whatever the all-edges check
+passed, the check it was repaired into (`chkTypesFirstProducer`) passes.  (NOT the present `chkTypes`: the
+later repair "strict_types checks every producer of a value against its consumer" rejects graphs both
+earlier checks accepted — `HG.C19s.strict_second_producer_witness`.) -/
+theorem chkTypesFirstProducer_of_allEdges {b : BuildInput} (h : chkTypesAllEdges b = none) :
+    chkTypesFirstProducer b = none :=
+  chkTypesFirstProducer_none.mpr fun hs e he _ => chkTypesAllEdges_none.mp h hs e he
+
+/-- the repair "strict_types checks every producer of a value against its consumer" only ever accepts less -/
+theorem chkTypesFirstProducer_of_chkTypes {b : BuildInput} (h : chkTypes b = none) :
+    chkTypesFirstProducer b = none :=
+  chkTypesFirstProducer_none.mpr (chkTypes_none_split.mp h).1
 
 theorem defaults_core (cons : List NodeD) (p : Name) :
     (if (!(cons.filterMap fun n => (AL.get? n.sigDefaults p).map fun v => (v, n.name)).isEmpty &&
@@ -783,49 +1310,94 @@ theorem oRows_eq (b : BuildInput) (o : Name) :
   unfold orderAdj orderRows
   cases b.explicitEdges <;> rfl
 
-/-- the conflict check passes iff every pair it enumerates is mutex or ordered -/
-theorem chkOutputConflicts_none_pairs {b : BuildInput} :
-    chkOutputConflicts b = none ↔
+/-- the conflict check passes iff every pair it enumerates is mutex (in the sense `M` of the groups it was
+given) or ordered -/
+theorem chkOutputConflictsWith_none_pairs {groupsOf} {b : BuildInput} {M : Name → Name → Prop}
+    (hM : ∀ a c, isPairMutex (groupsOf b.nodes (nodeNames b)
+        (rowsAdj (adjRows (nodeNames b) (hasEdge (graphEdges b))))) a c = true ↔ M a c) :
+    chkOutputConflictsWith groupsOf b = none ↔
       ∀ o ∈ graphOutputs b.nodes, ∀ ac ∈ pairs (sourcesOf b.nodes o),
-        Mutex b ac.1 ac.2 ∨ Ordered b o ac.1 ac.2 := by
-  unfold chkOutputConflicts
+        M ac.1 ac.2 ∨ Ordered b o ac.1 ac.2 := by
+  unfold chkOutputConflictsWith
   simp only [List.findSome?_eq_none_iff]
   refine forall_congr' fun o => forall_congr' fun _ => ?_
   by_cases hl : (sourcesOf b.nodes o).length < 2
   · simp [hl, pairs_eq_nil_of_length_lt hl]
   · simp only [hl, if_false, List.findSome?_eq_none_iff, oRows_eq]
     refine forall_congr' fun ac => forall_congr' fun _ => ?_
-    have hm : isPairMutex (expandedGroups b.nodes (nodeNames b)
-        (rowsAdj (adjRows (nodeNames b) (hasEdge (graphEdges b))))) ac.1 ac.2 = true ↔ Mutex b ac.1 ac.2 := by
-      rw [isPairMutex_expandedGroups]; unfold Mutex; simp only [mutexVia_rows]
+    have hm := hM ac.1 ac.2
     have h1 : reaches (nodeNames b) (rowsAdj (adjRows (nodeNames b) (orderAdj b o))) ac.1 ac.2 = true ↔
         Reach (nodeNames b) (orderAdj b o) ac.1 ac.2 := by rw [reaches_iff, reach_rows]
     have h2 : reaches (nodeNames b) (rowsAdj (adjRows (nodeNames b) (orderAdj b o))) ac.2 ac.1 = true ↔
         Reach (nodeNames b) (orderAdj b o) ac.2 ac.1 := by rw [reaches_iff, reach_rows]
     unfold Ordered
     rw [← hm, ← h1, ← h2]
-    cases isPairMutex (expandedGroups b.nodes (nodeNames b)
+    cases isPairMutex (groupsOf b.nodes (nodeNames b)
         (rowsAdj (adjRows (nodeNames b) (hasEdge (graphEdges b))))) ac.1 ac.2 <;>
       cases reaches (nodeNames b) (rowsAdj (adjRows (nodeNames b) (orderAdj b o))) ac.1 ac.2 <;>
       cases reaches (nodeNames b) (rowsAdj (adjRows (nodeNames b) (orderAdj b o))) ac.2 ac.1 <;> simp
+
+theorem isPairMutex_groups_iff {b : BuildInput} (a c : Name) :
+    isPairMutex (expandedGroups b.nodes (nodeNames b)
+      (rowsAdj (adjRows (nodeNames b) (hasEdge (graphEdges b))))) a c = true ↔ Mutex b a c := by
+  rw [isPairMutex_expandedGroups]; unfold Mutex; simp only [mutexVia_rows]
+
+theorem isPairMutex_groupsReach_iff {b : BuildInput} (a c : Name) :
+    isPairMutex (expandedGroupsReach b.nodes (nodeNames b)
+      (rowsAdj (adjRows (nodeNames b) (hasEdge (graphEdges b))))) a c = true ↔ MutexReach b a c := by
+  rw [isPairMutex_expandedGroupsReach]; unfold MutexReach; simp only [mutexViaReach_rows]
+
+theorem chkOutputConflicts_none_pairs {b : BuildInput} :
+    chkOutputConflicts b = none ↔
+      ∀ o ∈ graphOutputs b.nodes, ∀ ac ∈ pairs (sourcesOf b.nodes o),
+        Mutex b ac.1 ac.2 ∨ Ordered b o ac.1 ac.2 :=
+  chkOutputConflictsWith_none_pairs isPairMutex_groups_iff
+
+theorem chkOutputConflictsReach_none_pairs {b : BuildInput} :
+    chkOutputConflictsReach b = none ↔
+      ∀ o ∈ graphOutputs b.nodes, ∀ ac ∈ pairs (sourcesOf b.nodes o),
+        MutexReach b ac.1 ac.2 ∨ Ordered b o ac.1 ac.2 :=
+  chkOutputConflictsWith_none_pairs isPairMutex_groupsReach_iff
+
+/-- from the enumerated pairs to all pairs of different producers (`M` symmetric) -/
+theorem pairs_iff_producers {b : BuildInput} (hn : (nodeNames b).Nodup) {M : Name → Name → Prop}
+    (hsymm : ∀ a c, M a c → M c a) :
+    (∀ o ∈ graphOutputs b.nodes, ∀ ac ∈ pairs (sourcesOf b.nodes o), M ac.1 ac.2 ∨ Ordered b o ac.1 ac.2) ↔
+      ∀ o a c, a ≠ c → Produces b a o → Produces b c o → M a c ∨ Ordered b o a c := by
+  constructor
+  · intro h o a c hne ha hc
+    have ho : o ∈ graphOutputs b.nodes := by
+      obtain ⟨nd, hnd, _, hout⟩ := ha; exact mem_graphOutputs.mpr ⟨nd, hnd, hout⟩
+    have hp := (forall_pairs_iff_pairwise (R := fun a c => M a c ∨ Ordered b o a c)).mp (h o ho)
+    exact forall_ne_of_pairwise (R := fun a c => M a c ∨ Ordered b o a c)
+      (fun x y hxy => hxy.elim (fun m => .inl (hsymm _ _ m)) (fun r => .inr r.symm)) hp
+      a (mem_sourcesOf.mpr ha) c (mem_sourcesOf.mpr hc) hne
+  · intro h o _
+    refine (forall_pairs_iff_pairwise (R := fun a c => M a c ∨ Ordered b o a c)).mpr
+      (pairwise_of_forall_ne (sourcesOf_nodup hn o) ?_)
+    intro a ha c hc hne
+    exact h o a c hne (mem_sourcesOf.mp ha) (mem_sourcesOf.mp hc)
 
 theorem chkOutputConflicts_none {b : BuildInput} (hn : (nodeNames b).Nodup) :
     chkOutputConflicts b = none ↔
       ∀ o a c, a ≠ c → Produces b a o → Produces b c o → Mutex b a c ∨ Ordered b o a c := by
   rw [chkOutputConflicts_none_pairs]
-  constructor
-  · intro h o a c hne ha hc
-    have ho : o ∈ graphOutputs b.nodes := by
-      obtain ⟨nd, hnd, _, hout⟩ := ha; exact mem_graphOutputs.mpr ⟨nd, hnd, hout⟩
-    have hp := (forall_pairs_iff_pairwise (R := fun a c => Mutex b a c ∨ Ordered b o a c)).mp (h o ho)
-    exact forall_ne_of_pairwise (R := fun a c => Mutex b a c ∨ Ordered b o a c)
-      (fun x y hxy => hxy.elim (fun m => .inl m.symm) (fun r => .inr r.symm)) hp
-      a (mem_sourcesOf.mpr ha) c (mem_sourcesOf.mpr hc) hne
-  · intro h o _
-    refine (forall_pairs_iff_pairwise (R := fun a c => Mutex b a c ∨ Ordered b o a c)).mpr
-      (pairwise_of_forall_ne (sourcesOf_nodup hn o) ?_)
-    intro a ha c hc hne
-    exact h o a c hne (mem_sourcesOf.mp ha) (mem_sourcesOf.mp hc)
+  exact pairs_iff_producers hn fun _ _ => Mutex.symm
+
+/-- the pre-repair conflict check, with the pre-repair notion of exclusive branches -/
+theorem chkOutputConflictsReach_none {b : BuildInput} (hn : (nodeNames b).Nodup) :
+    chkOutputConflictsReach b = none ↔
+      ∀ o a c, a ≠ c → Produces b a o → Produces b c o → MutexReach b a c ∨ Ordered b o a c := by
+  rw [chkOutputConflictsReach_none_pairs]
+  exact pairs_iff_producers hn fun _ _ => MutexReach.symm
+
+/-- where no target of an exclusive gate lies below a sibling target, the repaired conflict check accepts
+no more than the pre-repair one -/
+theorem chkOutputConflictsReach_of_chkOutputConflicts {b : BuildInput} (hap : TargetsApart b)
+    (h : chkOutputConflicts b = none) : chkOutputConflictsReach b = none := by
+  rw [chkOutputConflictsReach_none_pairs]
+  intro o ho ac hac
+  exact (chkOutputConflicts_none_pairs.mp h o ho ac hac).imp (Mutex.mutexReach hap) id
 
 /-! ## `lastSource`, `WellFormed`, and the equivalence -/
 
@@ -943,6 +1515,11 @@ structure WellFormed (b : BuildInput) : Prop where
   carry no values) is annotated on both sides, compatibly.  Ordering edges (emit → wait_for) are labelled
   with the awaited name but no value reaches a parameter through them: nothing is demanded of them. -/
   typed : b.strict = true → ∀ e ∈ graphEdges b, e.kind ≠ .ordering → ∀ v ∈ e.values, TypedOK b e v
+  /-- … and so is every OTHER node producing that value as data (the built graph links a consumer to the
+  first-listed producer of a name only; any of the — exclusive or ordered — producers can deliver it):
+  `p` is annotated for `v`, compatibly with the parameter `v` of the edge's target -/
+  typedAllProducers : b.strict = true → ∀ e ∈ graphEdges b, e.kind ≠ .ordering → ∀ v ∈ e.values,
+    ∀ p ∈ b.nodes, v ∈ p.dataOuts → p.name ≠ e.src → p.name ≠ e.dst → TypedOK b { e with src := p.name } v
 
 /-- the only way to obtain a runnable graph value: a description together with the evidence that
 the constructor accepted it -/
@@ -997,7 +1574,8 @@ theorem buildGraph_ok_iff {b : BuildInput} : buildGraph b = .ok () ↔ WellForme
         noInterruptInMap := chkInterruptInMap_none.mp h12
         noCacheOnGraph := chkCacheOnGraphNode_none.mp h13
         waitForProduced := chkWaitFor_none.mp h14
-        typed := chkTypes_none.mp h15 }
+        typed := (chkTypes_none_split.mp h15).1
+        typedAllProducers := (chkTypes_none_split.mp h15).2 }
   · intro w
     refine ⟨chkDuplicateNodes_none.mpr w.uniqueNames, (chkExplicitEdges_none w.uniqueNames).mpr w.edgesKnown,
       (chkOutputConflicts_none w.uniqueNames).mpr w.producers, chkGraphName_none.mpr w.graphName,
@@ -1006,21 +1584,35 @@ theorem buildGraph_ok_iff {b : BuildInput} : buildGraph b = .ok () ↔ WellForme
       chkConsistentDefaults_none.mpr w.defaults, chkGateTargets_none.mpr w.targetsKnown,
       chkGateSelfLoop_none.mpr w.noSelfLoop, chkMultiTarget_none.mpr w.multiTarget,
       chkInterruptInMap_none.mpr w.noInterruptInMap, chkCacheOnGraphNode_none.mpr w.noCacheOnGraph,
-      chkWaitFor_none.mpr w.waitForProduced, chkTypes_none.mpr w.typed⟩
+      chkWaitFor_none.mpr w.waitForProduced, chkTypes_none_split.mpr ⟨w.typed, w.typedAllProducers⟩⟩
     refine chkNamespaceCollision_none.mpr fun g hg hk src hl => ?_
     obtain ⟨l1, nd, l2, heq, hnm, ho, hl2⟩ := lastSource_eq_some_iff.mp hl
     exact hnm ▸ w.noCollision g hg hk l1 nd l2 heq ho hl2
 
 /-! ## the two pre-repair constructors kept for the negative witnesses -/
 
-/-- the repair "strict typing skips ordering edges" only ever accepts more -/
-theorem buildGraph_ok_of_allEdges {b : BuildInput} (h : buildGraphAllEdges b = .ok ()) : buildGraph b = .ok () := by
+/-- the repair "strict typing skips ordering edges" only ever accepts more — stated against the constructor
+it produced (`buildGraphFirstProducer`); against the present `buildGraph` it is FALSE, the later repair
+"strict_types checks every producer of a value against its consumer" rejects graphs both accepted -/
+theorem buildGraphFirstProducer_ok_of_allEdges {b : BuildInput} (h : buildGraphAllEdges b = .ok ()) :
+    buildGraphFirstProducer b = .ok () := by
   unfold buildGraphAllEdges at h
-  unfold buildGraph
+  unfold buildGraphFirstProducer
   rw [runChecks_ok] at h ⊢
-  simp only [checksAllEdges, checks, List.mem_cons, List.not_mem_nil, or_false, forall_eq_or_imp, forall_eq] at h ⊢
+  simp only [checksAllEdges, checksFirstProducer, List.mem_cons, List.not_mem_nil, or_false, forall_eq_or_imp,
+    forall_eq] at h ⊢
   obtain ⟨h1, h2, h3, h4, h5, h6, h6', h7, h8, h9, h10, h11, h12, h13, h14, h15⟩ := h
-  exact ⟨h1, h2, h3, h4, h5, h6, h6', h7, h8, h9, h10, h11, h12, h13, h14, chkTypes_of_allEdges h15⟩
+  exact ⟨h1, h2, h3, h4, h5, h6, h6', h7, h8, h9, h10, h11, h12, h13, h14, chkTypesFirstProducer_of_allEdges h15⟩
+
+/-- the repair "strict_types checks every producer of a value against its consumer" only ever accepts less -/
+theorem buildGraphFirstProducer_ok_of {b : BuildInput} (h : buildGraph b = .ok ()) :
+    buildGraphFirstProducer b = .ok () := by
+  unfold buildGraph at h
+  unfold buildGraphFirstProducer
+  rw [runChecks_ok] at h ⊢
+  simp only [checksFirstProducer, checks, List.mem_cons, List.not_mem_nil, or_false, forall_eq_or_imp, forall_eq] at h ⊢
+  obtain ⟨h1, h2, h3, h4, h5, h6, h6', h7, h8, h9, h10, h11, h12, h13, h14, h15⟩ := h
+  exact ⟨h1, h2, h3, h4, h5, h6, h6', h7, h8, h9, h10, h11, h12, h13, h14, chkTypesFirstProducer_of_chkTypes h15⟩
 
 /-- the repair "output names of a nested graph are validated" only ever accepts less -/
 theorem buildGraphSkipGraph_ok_of {b : BuildInput} (h : buildGraph b = .ok ()) : buildGraphSkipGraph b = .ok () := by
@@ -1039,6 +1631,20 @@ theorem buildGraphDupOutputs_ok_of {b : BuildInput} (h : buildGraph b = .ok ()) 
   simp only [checksDupOutputs, checks, List.mem_cons, List.not_mem_nil, or_false, forall_eq_or_imp, forall_eq] at h ⊢
   obtain ⟨h1, h2, h3, h4, h5, h6, _, h7, h8, h9, h10, h11, h12, h13, h14, h15⟩ := h
   exact ⟨h1, h2, h3, h4, h5, h6, h7, h8, h9, h10, h11, h12, h13, h14, h15⟩
+
+/-- the repair "two producers of one name are exclusive only if neither can run without its branch" only
+ever accepts less — on graphs where no target of an exclusive gate lies below a sibling target
+(`TargetsApart`; without it the repaired constructor accepts MORE:
+`HG.C19s.loop_back_branches_now_mutex_witness`) -/
+theorem buildGraphMutexReach_ok_of {b : BuildInput} (hap : TargetsApart b) (h : buildGraph b = .ok ()) :
+    buildGraphMutexReach b = .ok () := by
+  unfold buildGraph at h
+  unfold buildGraphMutexReach
+  rw [runChecks_ok] at h ⊢
+  simp only [checksMutexReach, checks, List.mem_cons, List.not_mem_nil, or_false, forall_eq_or_imp, forall_eq] at h ⊢
+  obtain ⟨h1, h2, h3, h4, h5, h6, h6', h7, h8, h9, h10, h11, h12, h13, h14, h15⟩ := h
+  exact ⟨h1, h2, chkOutputConflictsReach_of_chkOutputConflicts hap h3, h4, h5, h6, h6', h7, h8, h9, h10, h11,
+    h12, h13, h14, h15⟩
 
 /-! ## every error of a check is a configuration error -/
 
@@ -1067,8 +1673,9 @@ theorem chkExplicitEdges_cfg {b e} (h : chkExplicitEdges b = some e) : e.isConfi
   · cases h
   · obtain ⟨_, _, h'⟩ := List.exists_of_findSome?_eq_some h; exact chkEdge_cfg h'
 
-theorem chkOutputConflicts_cfg {b e} (h : chkOutputConflicts b = some e) : e.isConfig = true := by
-  unfold chkOutputConflicts at h
+theorem chkOutputConflictsWith_cfg {groupsOf b e} (h : chkOutputConflictsWith groupsOf b = some e) :
+    e.isConfig = true := by
+  unfold chkOutputConflictsWith at h
   obtain ⟨o, _, ho⟩ := List.exists_of_findSome?_eq_some h
   simp only at ho
   split at ho
@@ -1077,6 +1684,12 @@ theorem chkOutputConflicts_cfg {b e} (h : chkOutputConflicts b = some e) : e.isC
     split at hac
     · cases hac
     · cases hac; rfl
+
+theorem chkOutputConflicts_cfg {b e} (h : chkOutputConflicts b = some e) : e.isConfig = true :=
+  chkOutputConflictsWith_cfg h
+
+theorem chkOutputConflictsReach_cfg {b e} (h : chkOutputConflictsReach b = some e) : e.isConfig = true :=
+  chkOutputConflictsWith_cfg h
 
 theorem chkGraphName_cfg {b e} (h : chkGraphName b = some e) : e.isConfig = true := by
   unfold chkGraphName at h; split at h
@@ -1190,19 +1803,38 @@ theorem chkWaitFor_cfg {b e} (h : chkWaitFor b = some e) : e.isConfig = true := 
   · cases h''
   · cases h''; rfl
 
+theorem chkTypesTriple_cfg {b src dst v e} (h : chkTypesTriple b src dst v = some e) : e.isConfig = true := by
+  unfold chkTypesTriple at h
+  split at h
+  · cases h; rfl
+  · split at h
+    · cases h; rfl
+    · split at h
+      · cases h
+      · cases h; rfl
+
 theorem chkTypesEdge_cfg {b ed e} (h : chkTypesEdge b ed = some e) : e.isConfig = true := by
   unfold chkTypesEdge at h
   obtain ⟨_, _, h'⟩ := List.exists_of_findSome?_eq_some h
-  split at h'
-  · cases h'; rfl
-  · split at h'
-    · cases h'; rfl
-    · split at h'
-      · cases h'
-      · cases h'; rfl
+  exact chkTypesTriple_cfg h'
+
+theorem chkTypesEdgeProducers_cfg {b ed e} (h : chkTypesEdgeProducers b ed = some e) : e.isConfig = true := by
+  unfold chkTypesEdgeProducers at h
+  obtain ⟨_, _, h'⟩ := List.exists_of_findSome?_eq_some h
+  obtain ⟨_, _, h''⟩ := List.exists_of_findSome?_eq_some h'
+  exact chkTypesTriple_cfg h''
 
 theorem chkTypes_cfg {b e} (h : chkTypes b = some e) : e.isConfig = true := by
   unfold chkTypes at h
+  split at h
+  · obtain ⟨_, _, h'⟩ := List.exists_of_findSome?_eq_some h
+    split at h'
+    · cases h'
+    · exact chkTypesEdgeProducers_cfg h'
+  · cases h
+
+theorem chkTypesFirstProducer_cfg {b e} (h : chkTypesFirstProducer b = some e) : e.isConfig = true := by
+  unfold chkTypesFirstProducer at h
   split at h
   · obtain ⟨_, _, h'⟩ := List.exists_of_findSome?_eq_some h
     split at h'
@@ -1404,7 +2036,7 @@ theorem buildGraphOld_eq {b : BuildInput} (h : chkOldRawError b = none) : buildG
 
 `compat` is defined by well-founded recursion and does not reduce under `decide`.  For concrete
 graphs whose annotations are plain classes, `chkTypesSimple` (identical to `chkTypes` — ordering edges
-skipped — except that it
+skipped, every data producer of a value checked — except that it
 accepts a pair of annotations only when both are the same plain class) is kernel-evaluable and
 implies `chkTypes`. -/
 
@@ -1417,41 +2049,84 @@ theorem compat_of_clsEq {t u : Ty} (h : clsEq t u = true) : compat t u = true :=
   subst h
   simp [compat, identicalOrAny, pyEq]
 
-def chkTypesEdgeSimple (b : BuildInput) (e : Edge) : Option BuildErr :=
-  e.values.findSome? fun v =>
-    match outType b e.src v with
-    | none => some (.missingOutputAnnotation e.src v)
-    | some to =>
-      match inType b e.dst v with
-      | none => some (.missingInputAnnotation e.dst v)
-      | some ti => if clsEq to ti then none else some (.typeMismatch e.src e.dst v)
+def chkTypesTripleSimple (b : BuildInput) (src dst v : Name) : Option BuildErr :=
+  match outType b src v with
+  | none => some (.missingOutputAnnotation src v)
+  | some to =>
+    match inType b dst v with
+    | none => some (.missingInputAnnotation dst v)
+    | some ti => if clsEq to ti then none else some (.typeMismatch src dst v)
 
+def chkTypesEdgeSimple (b : BuildInput) (e : Edge) : Option BuildErr :=
+  e.values.findSome? fun v => chkTypesTripleSimple b e.src e.dst v
+
+def chkTypesEdgeProducersSimple (b : BuildInput) (e : Edge) : Option BuildErr :=
+  e.values.findSome? fun v => (typeSourcesFor b e v).findSome? fun s => chkTypesTripleSimple b s e.dst v
+
+/-- mirrors `chkTypes` (every data producer of a value) -/
 def chkTypesSimple (b : BuildInput) : Option BuildErr :=
+  if b.strict then
+    (nxOrder b.nodes (graphEdges b)).findSome? fun e =>
+      if e.kind == .ordering then none else chkTypesEdgeProducersSimple b e
+  else none
+
+/-- mirrors the pre-repair `chkTypesFirstProducer` -/
+def chkTypesFirstProducerSimple (b : BuildInput) : Option BuildErr :=
   if b.strict then
     (nxOrder b.nodes (graphEdges b)).findSome? fun e =>
       if e.kind == .ordering then none else chkTypesEdgeSimple b e
   else none
 
-theorem chkTypes_of_simple {b : BuildInput} (h : chkTypesSimple b = none) : chkTypes b = none := by
-  rw [chkTypes_none]
-  intro hs e he hk v hv
-  unfold chkTypesSimple at h
-  rw [hs] at h
-  simp only [if_true, List.findSome?_eq_none_iff, mem_nxOrder] at h
-  have h' := h e he
-  rw [if_neg (by simpa using hk)] at h'
-  unfold chkTypesEdgeSimple at h'
-  rw [List.findSome?_eq_none_iff] at h'
-  have h'' := h' v hv
-  cases ho : outType b e.src v with
-  | none => simp [ho] at h''
+theorem chkTypesTriple_of_simple {b : BuildInput} {src dst v : Name}
+    (h : chkTypesTripleSimple b src dst v = none) : chkTypesTriple b src dst v = none := by
+  unfold chkTypesTripleSimple at h
+  unfold chkTypesTriple
+  cases ho : outType b src v with
+  | none => simp [ho] at h
   | some to =>
-    cases hi : inType b e.dst v with
-    | none => simp [ho, hi] at h''
+    cases hi : inType b dst v with
+    | none => simp [ho, hi] at h
     | some ti =>
       cases hc : clsEq to ti with
-      | false => simp [ho, hi, hc] at h''
-      | true => exact ⟨to, ti, ho, hi, compat_of_clsEq hc⟩
+      | false => simp [ho, hi, hc] at h
+      | true => simp [compat_of_clsEq hc]
+
+theorem chkTypes_of_simple {b : BuildInput} (h : chkTypesSimple b = none) : chkTypes b = none := by
+  unfold chkTypesSimple at h
+  unfold chkTypes
+  cases hs : b.strict
+  · simp
+  · rw [hs] at h
+    simp only [if_true, List.findSome?_eq_none_iff] at h ⊢
+    intro e he
+    have h' := h e he
+    by_cases hk : (e.kind == .ordering) = true
+    · simp [hk]
+    · rw [if_neg hk] at h' ⊢
+      unfold chkTypesEdgeProducersSimple at h'
+      unfold chkTypesEdgeProducers
+      simp only [List.findSome?_eq_none_iff] at h' ⊢
+      intro v hv s hs'
+      exact chkTypesTriple_of_simple (h' v hv s hs')
+
+theorem chkTypesFirstProducer_of_simple {b : BuildInput} (h : chkTypesFirstProducerSimple b = none) :
+    chkTypesFirstProducer b = none := by
+  unfold chkTypesFirstProducerSimple at h
+  unfold chkTypesFirstProducer
+  cases hs : b.strict
+  · simp
+  · rw [hs] at h
+    simp only [if_true, List.findSome?_eq_none_iff] at h ⊢
+    intro e he
+    have h' := h e he
+    by_cases hk : (e.kind == .ordering) = true
+    · simp [hk]
+    · rw [if_neg hk] at h' ⊢
+      unfold chkTypesEdgeSimple at h'
+      unfold chkTypesEdge
+      simp only [List.findSome?_eq_none_iff] at h' ⊢
+      intro v hv
+      exact chkTypesTriple_of_simple (h' v hv)
 
 /-- all checks but the last (`chkTypes`) -/
 def checksUntyped : List (BuildInput → Option BuildErr) :=
@@ -1478,6 +2153,31 @@ theorem buildGraph_ok_of_simple {b : BuildInput}
   have ht : chkTypes b = none :=
     chkTypes_of_simple (hall chkTypesSimple (List.mem_append_right _ (List.mem_singleton.mpr rfl)))
   rw [buildGraph_of_untyped hu, ht]
+
+theorem buildGraphFirstProducer_of_untyped {b : BuildInput} (h : runChecks checksUntyped b = .ok ()) :
+    buildGraphFirstProducer b = match chkTypesFirstProducer b with | some e => .error e | none => .ok () := by
+  have hall := runChecks_ok.mp h
+  simp only [checksUntyped, List.mem_cons, List.not_mem_nil, or_false, forall_eq_or_imp, forall_eq] at hall
+  obtain ⟨h1, h2, h3, h4, h5, h6, h6', h7, h8, h9, h10, h11, h12, h13, h14⟩ := hall
+  unfold buildGraphFirstProducer runChecks checksFirstProducer
+  simp only [List.findSome?_cons, h1, h2, h3, h4, h5, h6, h6', h7, h8, h9, h10, h11, h12, h13, h14,
+    List.findSome?_nil]
+  cases chkTypesFirstProducer b <;> rfl
+
+/-- kernel-evaluable sufficient condition for acceptance by the pre-repair constructor -/
+theorem buildGraphFirstProducer_ok_of_simple {b : BuildInput}
+    (h : runChecks (checksUntyped ++ [chkTypesFirstProducerSimple]) b = .ok ()) :
+    buildGraphFirstProducer b = .ok () := by
+  have hall := runChecks_ok.mp h
+  have hu : runChecks checksUntyped b = .ok () :=
+    runChecks_ok.mpr fun c hc => hall c (List.mem_append_left _ hc)
+  have ht : chkTypesFirstProducer b = none :=
+    chkTypesFirstProducer_of_simple
+      (hall chkTypesFirstProducerSimple (List.mem_append_right _ (List.mem_singleton.mpr rfl)))
+  rw [buildGraphFirstProducer_of_untyped hu, ht]
+
+theorem compat_str_int : compat (.cls "str") (.cls "int") = false := by
+  simp [compat, identicalOrAny, pyEq, Ty.isAny, Ty.isNoAnn, originOk, Ty.head?, isSub, strictSub]
 
 theorem compat_int_str : compat (.cls "int") (.cls "str") = false := by
   simp [compat, identicalOrAny, pyEq, Ty.isAny, Ty.isNoAnn, originOk, Ty.head?, isSub, strictSub]
@@ -1558,6 +2258,14 @@ def exMissingAnnotation : BuildInput :=
   { exGood with inTypes := [("src", [("x", .cls "int")]), ("decide", [("a", .cls "int")]),
       ("left", [("a", .cls "int")]), ("right", [("a", .cls "int")])] }
 def exGraphName : BuildInput := { exGood with graphName := "pipe.line" }
+
+def exStrOut : AL (AL Ty) :=
+  [("src", [("a", .cls "int")]), ("left", [("r", .cls "int")]), ("right", [("r", .cls "str")]),
+   ("sink", [("out", .cls "int")])]
+/-- `exGood` with the SECOND producer of `r` annotated `-> str` (the consumer `sink(r : int)`) -/
+def exSecondStr : BuildInput := { exGood with outTypes := exStrOut }
+/-- the same graph, `right` listed before `left` -/
+def exSecondStrSwapped : BuildInput := { exSecondStr with nodes := [exSrc, exDecide, exRight, exLeft, exSink] }
 
 /-- a multi-target route whose two targets both produce `res` (and are ordered through `t`) -/
 def exMultiNodes (multi : Bool) : List NodeD :=
